@@ -4,6 +4,7 @@
 set -e
 DIR="$(cd "$(dirname "$0")" && pwd)"
 cd "$DIR"
+python3 tools/gen_driver.py
 PYTHONPATH="$DIR/py" PYTHONDONTWRITEBYTECODE=1 /venv/bin/python -c "from verifpy import translate; translate.translate()"
 cd lean
 lake build Verif verif-driver
